@@ -394,7 +394,8 @@ class Prober:
         L = self.L
         det = json.dumps({"pool_id": "_", "labels": {"vlan_range": "1-2"}}, sort_keys=True)
         detc = json.dumps({"pool_id": "_", "capacities": {"unit": 1}}, sort_keys=True)
-        shapes = [None, "", {"d1": "@"}, {"d1": "@", "d2": "@"}, {}]
+        # incl. an entry already keyed by the id it is re-keyed to (a model that was rewritten before; ids are opaque strings)
+        shapes = [None, "", {"d1": "@"}, {"d1": "@", "d2": "@"}, {}, {"G": "@"}, {"G": "@", "d1": "@"}]
         rekey, take, unm, prov = [], [], [], []
 
         def fill(v, cap):
@@ -423,7 +424,7 @@ class Prober:
         small = [None, "", {"G1": "@"}]
         for cap in (False, True):
             for c in small:
-                for a in [None, "", {"G2": "@"}]:
+                for a in [None, "", {"G2": "@"}, {"G1": "@"}]:
                     imp = L.fresh_store()
                     cs = {"id": CBM, "nodes": [_node("n", ld=None if cap else fill(c, cap), cd=fill(c, cap) if cap else None)], "edges": []}
                     as_ = {"id": GX, "nodes": [_node("n", ld=None if cap else fill(a, cap), cd=fill(a, cap) if cap else None)], "edges": []}
